@@ -507,9 +507,9 @@ func robustFamilies(c *CheckCtx, modes [][]string) []family {
 				fmt.Fprintf(&sb, "module L%d%s\n  include L%da\n  include L%db\nend\n", d, x, d-1, d-1)
 			}
 		}
-		fmt.Fprintf(&sb, "class Top\n  %s L%da\n  %s L%db\n  def own\n    @missing_ivar\n  end\nend\n", verb, depth, verb, depth)
+		fmt.Fprintf(&sb, "class Top\n  %s L%da\n  %s L%db\n  def own\n    @missing_ivar\n  end\n  def own2\n    counter_zz\n  end\n  def self.own3\n    counter_zz\n  end\nend\n", verb, depth, verb, depth)
 		sb.WriteString("class Sub < Top\nend\nt = Sub.new\n")
-		for _, call := range []string{"t.zz_missing", "t.base_m", "t.other_m", "t.level", "t.own", "Sub.zz_missing", "Sub.base_m", "t.level = 1"} {
+		for _, call := range []string{"t.zz_missing", "t.base_m", "t.other_m", "t.level", "t.own", "Sub.zz_missing", "Sub.base_m", "t.level = 1", "t.own2", "Sub.own3", "Top.new.own2"} {
 			if r.Bool() {
 				sb.WriteString("dbtp " + call + "\n")
 			}
@@ -593,6 +593,88 @@ func robustFamilies(c *CheckCtx, modes [][]string) []family {
 				fmt.Fprintf(&sb, "  include M%d\n", j)
 			}
 			fmt.Fprintf(&sb, "end\ndbtp Host.new.m%d\n", n-1)
+		}
+		return &robustCase{Exec: srcExec(sb.String(), pickMode(r)...)}
+	}})
+	fams = append(fams, family{name: "alias-chains", n: c.N(150, 3000), gen: func(r *RNG, i int) *robustCase {
+		// names assigned from one another before any of them has a value: chains,
+		// swap cycles of 2-4 names, chains that run INTO a cycle they are not part
+		// of (rho shape), self assignment; as a method's last value, at top level,
+		// as an argument, in a condition
+		k := 2 + r.Intn(6)
+		names := make([]string, k)
+		for j := range names {
+			names[j] = fmt.Sprintf("n%d", j)
+		}
+		var body []string
+		for steps := 1 + r.Intn(7); steps > 0; steps-- {
+			switch r.Intn(5) {
+			case 0: // swap cycle of 2-4 names
+				m := 2 + r.Intn(3)
+				if m > k {
+					m = k
+				}
+				st := r.Intn(k)
+				var l, rr []string
+				for j := 0; j < m; j++ {
+					l = append(l, names[(st+j)%k])
+					rr = append(rr, names[(st+j+1)%k])
+				}
+				body = append(body, strings.Join(l, ", ")+" = "+strings.Join(rr, ", "))
+			case 1:
+				a := Pick(r, names)
+				body = append(body, a+" = "+a)
+			default:
+				body = append(body, Pick(r, names)+" = "+Pick(r, names))
+			}
+		}
+		last := Pick(r, names)
+		if r.Bool() {
+			// rho shape, built on purpose: a chain c0 = c1, c1 = c2, ... whose end
+			// is assigned from a member of a swap cycle of other names
+			L := 1 + r.Intn(4)
+			m := 2 + r.Intn(2)
+			body = nil
+			var chain []string
+			for j := 0; j <= L; j++ {
+				chain = append(chain, fmt.Sprintf("c%d", j))
+			}
+			var cyc []string
+			for j := 0; j < m; j++ {
+				cyc = append(cyc, fmt.Sprintf("y%d", j))
+			}
+			for j := 0; j < L; j++ {
+				body = append(body, chain[j]+" = "+chain[j+1])
+			}
+			body = append(body, chain[L]+" = "+cyc[0])
+			var rot []string
+			for j := 0; j < m; j++ {
+				rot = append(rot, cyc[(j+1)%m])
+			}
+			body = append(body, strings.Join(cyc, ", ")+" = "+strings.Join(rot, ", "))
+			if r.Chance(1, 3) {
+				Shuffle(r, body)
+			}
+			last = chain[0]
+			names = append(chain, cyc...)
+		}
+		var sb strings.Builder
+		ind := ""
+		inDef := r.Chance(2, 3)
+		if inDef {
+			sb.WriteString(Pick(r, []string{"def chain_m\n", "class Ch\n  def chain_m\n", "def chain_m(n0, n1 = n2)\n"}))
+			ind = "  "
+		}
+		for _, l := range body {
+			sb.WriteString(ind + l + "\n")
+		}
+		sb.WriteString(ind + Pick(r, []string{last, "dbtp " + last, "puts " + last, "if " + last + "\n" + ind + "  " + last + "\n" + ind + "end", last + ".to_s", "[" + last + ", " + Pick(r, names) + "]", "return " + last}) + "\n")
+		if inDef {
+			if strings.HasPrefix(sb.String(), "class") {
+				sb.WriteString("  end\nend\ndbtp Ch.new.chain_m\n")
+			} else {
+				sb.WriteString("end\ndbtp chain_m\n")
+			}
 		}
 		return &robustCase{Exec: srcExec(sb.String(), pickMode(r)...)}
 	}})
